@@ -6,16 +6,24 @@ import Glom.Model.C15Env
   C15 driver.
 
   case: {"heap":[Obj…],
-         "events":[{"t":Val} | {"reg":{"cls":c,"exact":b,"kw":[[op,hname|null]…]}} …]
-                     (or "targets":[Val…]: evaluations only),
+         "events":[{"t":Val} | {"reg":{"cls":c,"exact":b,"kw":[[op,hname|null]…]}} | {"probe":c} …]
+                     ({"probe":c}: registry.get_handler('iterate', <an instance of c>, raise_exc=False)),
          "registry":"module"|"glommer"            (which registry the evaluations and registrations use),
          "prog":{"kind":"fold"|"sum"|"count"|"flatten"|"merge"|"flatten_fn"|"merge_fn",
                  "sub":[Val…], "init":Init|null, "op":Op|null, "levels":int|null},
          "impl":{"results":[R…], "after":[Obj…],
                  "hier":{"mro":[[t,[c…]]…],"inst":[[t,c]…],"sub":[[c,d]…],"auto":[[f,[[t,hname]…]]…]}}}
-  Init: "int"|"float"|"str"|"list"|"tuple"|"dict"|"OrderedDict"|"Acc"|"lazy"|{"shared":Val}|{"copy":Val};
-        null = argument omitted (the default extracted from the source is used)
-  Op:   "iadd"|"add"|"append"|"cons"|"update"|"first_wins";  null = omitted
+                 "extra_kw":true (flatten()/merge() with an unexpected keyword),
+                 "levels" may also be "None" | {"f":bits} | {"b":bool}
+  Init: "int"|"float"|"str"|"list"|"tuple"|"dict"|"OrderedDict"|"Acc"|"set"|"lazy"|"!bad" (not callable)|
+        {"shared":Val}|{"copy":Val};  null / absent = argument not passed (the default extracted from the source)
+  Op:   Fold: "iadd"|"add"|"append"|"cons"|"extend"|"dict_union"|"add_seq"|"poke"|"!bad";
+        Merge: "iadd"|"first_wins"|"dict_union"|"!bad"| a method name "update"|"extend"|"append"|"nosuch";  null = omitted
+  a generator cell may hold {"sent":"!raise:<Class>"}: the generator raises there
+  Nothing is skipped: a case outside the modelled domain is a decode error; a case that violates a
+  hypothesis of the property on purpose (shared init, an operator writing to its element, chain objects
+  served by another handler) is run through model and implementation all the same and counted under its
+  own `hyp-violated(...)` branch; `wf = false` or `model_holds = false` make `agree` false.
   R:    {"err":[cls,isGlomError]} | {"imm":Val} | {"input":addr} | {"prev":i} | {"fresh":Obj}
   a float is {"f": the 16 hex digits of its IEEE-754 bit pattern} (NaN canonical)
 
@@ -33,6 +41,8 @@ def initOfName (s : String) : Option InitArg :=
   | "str" => some (.init .str) | "list" => some (.init .list)
   | "tuple" => some (.init .tuple) | "dict" => some (.init .dict)
   | "OrderedDict" => some (.init .odict) | "Acc" => some (.init .acc) | "lazy" => some .lazy
+  | "set" => some (.init .set)
+  | "!bad" => some (.init .notCallable)            -- `init=5`, `init='LAZY'`: not callable
   | _ => none
 
 def initArgOfJson (cls : String) (j : Json) : Except String InitArg :=
@@ -67,6 +77,11 @@ def foldOpOfJson (j : Json) : Except String Op :=
   | .str "add" => .ok .add
   | .str "append" => .ok .append
   | .str "cons" => .ok .cons
+  | .str "extend" => .ok .extend
+  | .str "dict_union" => .ok .dictUnion
+  | .str "add_seq" => .ok .addSeq
+  | .str "poke" => .ok .pokeElem
+  | .str "!bad" => .ok .notCallable
   | _ => .error s!"bad fold op {j.compress}"
 
 def mergeOpOfJson (cls : String) (j : Json) : Except String MergeOpArg :=
@@ -77,16 +92,29 @@ def mergeOpOfJson (cls : String) (j : Json) : Except String MergeOpArg :=
     | d => .error s!"unusable default for {cls}.op in the extracted facts: {d}"
   | .str "iadd" => .ok .iadd
   | .str "first_wins" => .ok .firstWins
-  | .str n => .ok (.name n)
+  | .str "dict_union" => .ok .dictUnion
+  | .str "!bad" => .ok .notCallable
+  | .str n =>
+    if n == "update" || n == "extend" || n == "append" || n == "nosuch" then .ok (.name n)
+    else .error s!"bad merge op name {n}"
   | _ => .error s!"bad merge op {j.compress}"
 
 def progOfJson (j : Json) : Except String Prog := do
   let kind ← j.getObjValAs? String "kind"
-  let sub ← (match j.getObjVal? "sub" with
-    | .ok s => listOfJson valOfJson s
-    | .error _ => pure [])
+  let sub ← listOfJson valOfJson (← j.getObjVal? "sub")
+  -- an argument that is not passed is `null` or absent: the default extracted from the source is used
   let ji := (j.getObjVal? "init").toOption.getD .null
   let jo := (j.getObjVal? "op").toOption.getD .null
+  -- calls decided on their arguments alone
+  if let .ok (.bool true) := j.getObjVal? "extra_kw" then
+    if kind == "flatten_fn" || kind == "merge_fn" then return .oddCall .extraKw
+    else throw "extra_kw is for flatten() / merge()"
+  if kind == "flatten_fn" then
+    match j.getObjVal? "levels" with
+    | .ok (.str "None") => return .oddCall .levelsNone
+    | .ok lv =>
+      if let .ok bits := lv.getObjValAs? String "f" then return .oddCall (.levelsFloat bits)
+    | .error _ => pure ()
   match kind with
   | "fold" => return .fold sub (← plainInit "Fold" ji) (← foldOpOfJson jo)
   | "sum" => return .sum sub (← plainInit "Sum" ji)
@@ -99,7 +127,10 @@ def progOfJson (j : Json) : Except String Prog := do
         (match (defaultSrc "flatten" "levels").bind String.toInt? with
          | some l => pure l
          | none => throw "no usable default for flatten(levels=)")
-      | .ok l => l.getInt?)
+      | .ok l =>
+        (match l.getObjValAs? Bool "b" with           -- `levels=True`: a bool is an int
+         | .ok b => pure (if b then 1 else 0)
+         | .error _ => l.getInt?))
     return .flattenFn sub (← initArgOfJson "flatten" ji) lv
   | "merge_fn" => return .mergeFn sub (← plainInit "merge" ji) (← mergeOpOfJson "merge" jo)
   | k => throw s!"bad prog kind {k}"
@@ -140,12 +171,16 @@ def rTag : R → String
 
 def progTag : Prog → String
   | .fold _ _ .add => "Fold/add" | .fold _ _ .append => "Fold/append" | .fold _ _ .cons => "Fold/cons"
+  | .fold _ _ .addSeq => "Fold/add_seq" | .fold _ _ .pokeElem => "Fold/poke" | .fold _ _ .extend => "Fold/extend"
+  | .fold _ _ .dictUnion => "Fold/dict_union" | .fold _ _ .notCallable => "Fold/bad-op"
   | .fold .. => "Fold/iadd"
   | .sum .. => "Sum" | .count => "Count"
   | .flatten _ .lazy => "Flatten/lazy" | .flatten .. => "Flatten"
   | .merge .. => "Merge"
   | .flattenFn _ _ l => s!"flatten(levels={if l > 3 then 4 else l})"
   | .mergeFn .. => "merge()"
+  | .oddCall .extraKw => "call(extra kw)" | .oddCall .levelsNone => "flatten(levels=None)"
+  | .oddCall (.levelsFloat _) => "flatten(levels=float)"
 
 /-- dict keys the kernel's `pyKeyEq` does not cover (tuples compare by value in Python) -/
 def keysOk (h : Heap) : Bool :=
@@ -180,22 +215,20 @@ def hierOfJson (j : Json) : Except String C13.HierTab := do
 
 def eventOfJson (j : Json) : Except String Event := do
   if let .ok t := j.getObjVal? "t" then return .eval (← valOfJson t)
+  if let .ok c := j.getObjValAs? String "probe" then return .probe c
   let r ← j.getObjVal? "reg"
   let cls ← r.getObjValAs? String "cls"
   let exact ← (← r.getObjVal? "exact").getBool?
   let kw ← listOfJson (pairOfJson strOfJson optStr) (← r.getObjVal? "kw")
   return .register cls exact kw
 
-def eventsOfJson (j : Json) : Except String (List Event) :=
-  match j.getObjVal? "events" with
-  | .ok es => listOfJson eventOfJson es
-  | .error _ => do
-    let ts ← listOfJson valOfJson (← j.getObjVal? "targets")
-    return ts.map .eval
+def eventsOfJson (j : Json) : Except String (List Event) := do
+  listOfJson eventOfJson (← j.getObjVal? "events")
 
 def hasReg : List Event → Bool
   | [] => false
   | .register .. :: _ => true
+  | .probe _ :: _ => true
   | .eval _ :: es => hasReg es
 
 def pullOfJson (j : Json) : Except String (Lazy.PullObs × String) := do
@@ -222,7 +255,7 @@ def runPull (j : Json) : Except String Json := do
   let prog ← progOfJson (← j.getObjVal? "prog")
   let impl ← j.getObjVal? "impl"
   if !(wfCase heap (Event.targets events) && keysOk heap && cellsOk heap) then
-    return Json.mkObj [("skip", true), ("why", "heap not closed / malformed")]
+    throw "pull case outside the domain: heap not closed / malformed"
   let k ← (match prog with
     | .flatten [] .lazy => pure 1
     | .flattenFn [] .lazy l => if l ≥ 1 then pure l.toNat else throw "pull case needs levels >= 1"
@@ -249,6 +282,12 @@ def runPull (j : Json) : Except String Json := do
     ("model", runToJson modelRun), ("expected", runToJson (Lazy.refLazyRun heap k xs)),
     ("branch", s!"pull(levels={if k > 3 then 4 else k}):{tag}")]
 
+/-- what of a result can be compared when partial effects of a failed operator call are not
+    modelled (hypothesis-violating stream): error or not -/
+def rKind : R → String
+  | .err .. => "err"
+  | _ => "ok"
+
 def run (j : Json) : Except String Json := do
   if let .ok (.bool true) := j.getObjVal? "pull" then return ← runPull j
   let heap ← heapOfJson (← j.getObjVal? "heap")
@@ -257,36 +296,45 @@ def run (j : Json) : Except String Json := do
   let prog ← progOfJson (← j.getObjVal? "prog")
   let impl ← j.getObjVal? "impl"
   let implObs ← obsOfJson impl
+  let _ ← j.getObjValAs? String "registry"
   let H := (← hierOfJson (← impl.getObjVal? "hier")).toHier
+  -- a case outside the modelled domain is a generator bug: an error, never a silent skip
   if !(wfCase heap targets && (progVals prog).all (Val.inb heap.length)) then
-    return Json.mkObj [("skip", true), ("why", "heap not closed / dangling target")]
-  if !(keysOk heap) then
-    return Json.mkObj [("skip", true), ("why", "container used as a dict key")]
+    throw "case outside the domain: heap not closed / dangling target"
+  if !(keysOk heap) then throw "case outside the domain: container used as a dict key"
   if !(cellsOk heap && targets.all valFloatOk && (progVals prog).all valFloatOk) then
-    return Json.mkObj [("skip", true), ("why", "malformed float / iterable instance without `names`")]
+    throw "case outside the domain: malformed float / iterable instance without `names`"
   if !(prog.initWF heap) then
-    return Json.mkObj [("skip", true), ("why", "copying init over something that is not a list / tuple / dict")]
+    throw "case outside the domain: copying init over something that is not a list / tuple / dict"
   let env := genEnv
-  let out := runProgR H env prog events (genReg H) heap
+  let out := runHistory H env prog events (genReg H) heap
   let modelObs := observe env heap.length (out.1, out.2.1)
-  -- hypothesis-violating stream (init returns a shared object): an operator call that fails
-  -- half-way has already mutated that object; such partial effects are not modelled
-  if !prog.initAllocates && modelObs.results.any (fun r => match r with | .err .. => true | _ => false) then
-    return Json.mkObj [("skip", true), ("why", "shared init and a failing operator call")]
-  let agree := modelObs == implObs
-  -- hypothesis of the flatten(levels ≥ 2) reference: chain objects are iterated with `iter`
-  let chainOK := !prog.usesChain || chainIterAlong H specEnv events (specReg H)
-  -- the property is evaluated in the documented environment (`specEnv`, `specReg`), memo-free,
-  -- on the implementation's observation
-  let holds := !chainOK || checkC15R H specEnv (specReg H) heap prog events implObs
-  let modelHolds := !chainOK || checkC15R H specEnv (specReg H) heap prog events modelObs
+  let wf := WFConv env && WFSrc genSrc && defaultsOK (pureLk H (genReg H))
   let tag := match modelObs.results with | r :: _ => rTag r | [] => "no-eval"
+  -- hypotheses of the property that a case may violate on purpose (the model must still agree with
+  -- the implementation; the checker does not apply): each gets its own histogram branch
+  let chainOK := !prog.usesChain || chainIterAlong H specEnv events (specReg H)
+  let hyp := if !prog.initAllocates then "hyp-violated(init shared):"
+    else if !prog.opLawful then "hyp-violated(op writes to its element):"
+    else if !chainOK then "hyp-violated(chain objects not iterated with iter):"
+    else ""
+  -- an operator call that fails half-way has already mutated a SHARED accumulator: partial effects
+  -- are not modelled; what remains comparable is which evaluations raised
+  let partialEffects := !prog.initAllocates &&
+    modelObs.results.any (fun r => match r with | .err .. => true | _ => false)
+  let agree0 := if partialEffects then modelObs.results.map rKind == implObs.results.map rKind
+    else modelObs == implObs
+  let applies := hyp == ""
+  let holds := !applies || checkC15R H specEnv (specReg H) heap prog events implObs
+  let modelHolds := !applies || checkC15R H specEnv (specReg H) heap prog events modelObs
+  -- a model that fails its own checker, or facts that are not well-formed, break the tie
+  let agree := agree0 && modelHolds && wf
+  let branch := (if partialEffects then "hyp-violated(init shared, failing op: error pattern only):" else hyp) ++
+    s!"{progTag prog}{if hasReg events then "+reg" else ""}:{tag}"
   return Json.mkObj [("agree", agree), ("holds", holds), ("model_holds", modelHolds),
-    ("wf", WFConv env && WFSrc genSrc && defaultsOK (pureLk H (genReg H))),
-    ("wf_parts", Json.arr #[Json.bool (WFConv env), Json.bool (WFSrc genSrc), Json.bool (defaultsOK (pureLk H (genReg H)))]),
-    ("hyp_init_allocates", prog.initAllocates), ("hyp_chain_iter", chainOK),
+    ("wf", wf), ("checker_applies", applies),
     ("model", obsToJson modelObs),
-    ("expected", Json.arr ((expectAll H specEnv heap prog events (specReg H)).map rToJson).toArray),
-    ("branch", s!"{progTag prog}{if hasReg events then "+reg" else ""}:{tag}")]
+    ("expected", Json.arr ((expectHistory H specEnv heap prog events (specReg H)).map rToJson).toArray),
+    ("branch", branch)]
 
 end Glom.C15.Driver
